@@ -485,6 +485,13 @@ package decimal128
 //@ ensures !special(d) && !special(o) && coef(d) != 0 && coef(o) != 0 && isinf(r) ==> Ovf(mode, sign(r), rs(V, 12287))
 //@ ensures !special(d) && !special(o) && coef(d) != 0 && coef(o) != 0 && !special(r) ==>
 //@    (rs(V, 0) < 0.1 && coef(r) == 0) || (rs(V, 0) >= 0.1 && RndOK(mode, sign(r), rs(V, bexp(r)), coef(r), bexp(r)))
+//@ ensures isnan(d) ==> r == d
+//@ ensures !isnan(d) && isnan(o) ==> r == o
+//@ ensures !special(d) && coef(d) == 0 && isinf(o) ==> isnan(r) && !sign(r) && hi(r) == 0x7c00000000000000
+//@    && lo(r) == payloadOpMul + 256*ite(sign(d), payloadValNegZero, payloadValPosZero) + 65536*ite(sign(o), payloadValNegInfinite, payloadValPosInfinite)
+//@ ensures isinf(d) && !special(o) && coef(o) == 0 ==> isnan(r) && !sign(r) && hi(r) == 0x7c00000000000000
+//@    && lo(r) == payloadOpMul + 256*ite(sign(d), payloadValNegInfinite, payloadValPosInfinite) + 65536*ite(sign(o), payloadValNegZero, payloadValPosZero)
+//@ ensures (isinf(d) && (isinf(o) || (!special(o) && coef(o) != 0))) || (isinf(o) && !special(d) && coef(d) != 0) ==> isinf(r) && sign(r) == (sign(d) != sign(o)) && lo(r) == 0
 //@ props C02 C15 C19 C20
 
 // ---------------------------------------------------------------------------
@@ -1221,7 +1228,16 @@ package decimal128
 //@ ensures !special(d) && !special(o) && coef(d) != 0 && coef(o) != 0 && isinf(r) ==> Ovf(DefaultRoundingMode, sign(r), rs(V, 12287))
 //@ ensures !special(d) && !special(o) && coef(d) != 0 && coef(o) != 0 && !special(r) ==>
 //@    (rs(V, 0) < 0.1 && coef(r) == 0) || (rs(V, 0) >= 0.1 && RndOK(DefaultRoundingMode, sign(r), rs(V, bexp(r)), coef(r), bexp(r)))
-//@ props C02 C19 C20
+//@ ensures isnan(d) ==> r == d
+//@ ensures !isnan(d) && isnan(o) ==> r == o
+//@ ensures isinf(d) && isinf(o) ==> isnan(r) && !sign(r) && hi(r) == 0x7c00000000000000
+//@    && lo(r) == payloadOpQuo + 256*ite(sign(d), payloadValNegInfinite, payloadValPosInfinite) + 65536*ite(sign(o), payloadValNegInfinite, payloadValPosInfinite)
+//@ ensures isinf(d) && !special(o) ==> isinf(r) && sign(r) == (sign(d) != sign(o)) && lo(r) == 0
+//@ ensures !special(d) && isinf(o) ==> !special(r) && coef(r) == 0 && bexp(r) == 0 && sign(r) == (sign(d) != sign(o))
+//@ ensures !special(d) && !special(o) && coef(o) == 0 && coef(d) == 0 ==> isnan(r) && !sign(r) && hi(r) == 0x7c00000000000000
+//@    && lo(r) == payloadOpQuo + 256*ite(sign(d), payloadValNegZero, payloadValPosZero) + 65536*ite(sign(o), payloadValNegZero, payloadValPosZero)
+//@ ensures !special(d) && !special(o) && coef(o) == 0 && coef(d) != 0 ==> isinf(r) && sign(r) == (sign(d) != sign(o)) && lo(r) == 0
+//@ props C02 C15 C19 C20
 
 //@ func Decimal.Mul
 //@ returns (r)
@@ -1232,7 +1248,14 @@ package decimal128
 //@ ensures !special(d) && !special(o) && coef(d) != 0 && coef(o) != 0 && isinf(r) ==> Ovf(DefaultRoundingMode, sign(r), rs(V, 12287))
 //@ ensures !special(d) && !special(o) && coef(d) != 0 && coef(o) != 0 && !special(r) ==>
 //@    (rs(V, 0) < 0.1 && coef(r) == 0) || (rs(V, 0) >= 0.1 && RndOK(DefaultRoundingMode, sign(r), rs(V, bexp(r)), coef(r), bexp(r)))
-//@ props C02 C19 C20
+//@ ensures isnan(d) ==> r == d
+//@ ensures !isnan(d) && isnan(o) ==> r == o
+//@ ensures !special(d) && coef(d) == 0 && isinf(o) ==> isnan(r) && !sign(r) && hi(r) == 0x7c00000000000000
+//@    && lo(r) == payloadOpMul + 256*ite(sign(d), payloadValNegZero, payloadValPosZero) + 65536*ite(sign(o), payloadValNegInfinite, payloadValPosInfinite)
+//@ ensures isinf(d) && !special(o) && coef(o) == 0 ==> isnan(r) && !sign(r) && hi(r) == 0x7c00000000000000
+//@    && lo(r) == payloadOpMul + 256*ite(sign(d), payloadValNegInfinite, payloadValPosInfinite) + 65536*ite(sign(o), payloadValNegZero, payloadValPosZero)
+//@ ensures (isinf(d) && (isinf(o) || (!special(o) && coef(o) != 0))) || (isinf(o) && !special(d) && coef(d) != 0) ==> isinf(r) && sign(r) == (sign(d) != sign(o)) && lo(r) == 0
+//@ props C02 C15 C19 C20
 
 // ---------------------------------------------------------------------------
 // exp.go: operand-class behaviour of the elementary functions (C15). The bodies
